@@ -38,6 +38,8 @@ Inductive ucase :=
        ex = true evaluate_with_exact_rationals, false evaluate_in_scope / evaluate_numeric; typed scope (decimal literals
        are bound to reserved float variables); tolf: some intermediate value is not a double (only used where the
        typed model predicts a float); oc: the observed Python type class of the result *)
+| CChain (e : expr) (ss : list (list (N * expr))) (c : call)
+    (* round 6: evaluate_symbolic(s1), then evaluate_symbolic(s2) ... on the results, then evaluate in c's scope *)
 | CCrash.
 
 Definition eps : Q := 1 # 1073741824.   (* 2^-30, relative to max(1,|v|) *)
@@ -108,6 +110,13 @@ Definition vec_agree (ev : expr -> result Q) (es : list expr) (c : call) : bool 
 Definition subst_terms_defined (r : env) (s : list (N * expr)) : bool :=
   forallb (fun p => match evaluate r (snd p) with Ok _ => true | Err _ => false end) s.
 
+(* a chain: the terms of every step have a value in the scope the later steps denote *)
+Fixpoint chain_defined (r : env) (ss : list (list (N * expr))) : bool :=
+  match ss with
+  | [] => true
+  | s :: rest => chain_defined r rest && subst_terms_defined (ext_chain r rest) s
+  end.
+
 Definition ucheck_spec (c : ucase) : bool :=
   match c with
   | CEval e ivars calls => forallb (agree_call e ivars) calls
@@ -141,6 +150,10 @@ Definition ucheck_spec (c : ucase) : bool :=
       let r := mk_env (untyped s) (untyped v) [] in
       if all_bound r e
       then agree (negb (ex && exact_inputs s v) && tolf) (eval r e) o
+      else true
+  | CChain e ss c =>
+      if chain_defined (env_of c) ss
+      then agree (c_tol c) (evaluate (ext_chain (env_of c) ss) e) (c_obs c)
       else true
   | CCrash => false
   end.
